@@ -6,6 +6,14 @@
 //!          or  `R <rate bits> <hz bits> <n>`              long const_hz run, summary only (range sampling, no model)
 //!        (R): per signal `tag min max nan_count bad_count` (min/max over non-NaN frames; bad = outside [0,1) for the
 //!             phase, outside [-1,1] otherwise)
+//!          or  `H <rate bits> <n> <op> <order> <genkind> <top> <top bits> <m> <a_0..a_{n-1}> <b_0..b_{m-1}>`
+//!              rate(r).hz(control) where the control is built from dasp_signal's own sources and adaptors:
+//!              G = gen (genkind 0) / gen_mut (1) closure yielding a_k (then 0.0), counting its calls;
+//!              I = from_iter over an iterator yielding b_0..b_{m-1}, counting the calls of Iterator::next;
+//!              op 0: I alone, 4: G alone, 1: add_amp, 2: mul_amp, 3: zip_map(|x, y| x * 0.5 + y);
+//!              order 0: G.op(I), 1: I.op(G);  top 0: nothing, 1: .scale_amp(t), 2: .offset_amp(t)
+//!        (H): `1 phases;2 saws;3 squares;6 closure calls after each phase frame;8 iterator calls after each phase
+//!              frame;7 final closure calls (phase, saw, square);10 final iterator calls (phase, saw, square)`
 //! All floats as u64 bit patterns, NaN canonicalised; a panic is reported as `9 <code>`.
 use dasp_signal::{self as signal, Signal};
 use dasp_verif_harness::*;
@@ -91,6 +99,130 @@ fn osc(t: &[&str]) -> String {
     out.join(";")
 }
 
+/// Object-safe forwarding of a mono f64 signal (dasp_signal's own `impl Signal for Box<S>` is behind a
+/// misspelt cfg and never compiled); forwards `next` and `is_exhausted` unchanged.
+trait DynSig {
+    fn nx(&mut self) -> f64;
+    fn ex(&self) -> bool;
+}
+impl<S: Signal<Frame = f64>> DynSig for S {
+    fn nx(&mut self) -> f64 { self.next() }
+    fn ex(&self) -> bool { self.is_exhausted() }
+}
+struct Dyn(Box<dyn DynSig>);
+impl Signal for Dyn {
+    type Frame = f64;
+    fn next(&mut self) -> f64 { self.0.nx() }
+    fn is_exhausted(&self) -> bool { self.0.ex() }
+}
+
+struct CountIter {
+    v: Rc<Vec<f64>>,
+    i: usize,
+    calls: Rc<Cell<u64>>,
+}
+impl Iterator for CountIter {
+    type Item = f64;
+    fn next(&mut self) -> Option<f64> {
+        self.calls.set(self.calls.get() + 1);
+        let x = self.v.get(self.i).cloned();
+        self.i += 1;
+        x
+    }
+}
+
+struct HSpec {
+    op: u64,
+    order: u64,
+    genkind: u64,
+    top: u64,
+    topv: f64,
+    a: Rc<Vec<f64>>,
+    b: Rc<Vec<f64>>,
+}
+
+fn h_control(sp: &HSpec, gen_calls: Rc<Cell<u64>>, it_calls: Rc<Cell<u64>>) -> Dyn {
+    let mk_gen = || -> Dyn {
+        let a = sp.a.clone();
+        let c = gen_calls.clone();
+        if sp.genkind == 0 {
+            let i = Cell::new(0usize);
+            Dyn(Box::new(signal::gen(move || {
+                c.set(c.get() + 1);
+                let x = a.get(i.get()).cloned().unwrap_or(0.0);
+                i.set(i.get() + 1);
+                x
+            })))
+        } else {
+            let mut i = 0usize;
+            Dyn(Box::new(signal::gen_mut(move || {
+                c.set(c.get() + 1);
+                let x = a.get(i).cloned().unwrap_or(0.0);
+                i += 1;
+                x
+            })))
+        }
+    };
+    let mk_fin = || -> Dyn {
+        Dyn(Box::new(signal::from_iter(CountIter { v: sp.b.clone(), i: 0, calls: it_calls.clone() })))
+    };
+    let zf = |x: f64, y: f64| x * 0.5 + y;
+    let c: Dyn = match (sp.op, sp.order) {
+        (0, _) => mk_fin(),
+        (4, _) => mk_gen(),
+        (1, 0) => Dyn(Box::new(mk_gen().add_amp(mk_fin()))),
+        (1, _) => Dyn(Box::new(mk_fin().add_amp(mk_gen()))),
+        (2, 0) => Dyn(Box::new(mk_gen().mul_amp(mk_fin()))),
+        (2, _) => Dyn(Box::new(mk_fin().mul_amp(mk_gen()))),
+        (_, 0) => Dyn(Box::new(mk_gen().zip_map(mk_fin(), zf))),
+        (_, _) => Dyn(Box::new(mk_fin().zip_map(mk_gen(), zf))),
+    };
+    match sp.top {
+        1 => Dyn(Box::new(c.scale_amp(sp.topv))),
+        2 => Dyn(Box::new(c.offset_amp(sp.topv))),
+        _ => c,
+    }
+}
+
+fn hz_composite(t: &[&str]) -> String {
+    let f = |s: &str| f64::from_bits(s.parse::<u64>().unwrap());
+    let rate = f(t[1]);
+    let n: usize = t[2].parse().unwrap();
+    let u = |k: usize| t[k].parse::<u64>().unwrap();
+    let m = u(8) as usize;
+    let a: Vec<f64> = t[9..9 + n].iter().map(|s| f(s)).collect();
+    let b: Vec<f64> = t[9 + n..9 + n + m].iter().map(|s| f(s)).collect();
+    let sp = HSpec { op: u(3), order: u(4), genkind: u(5), top: u(6), topv: f(t[7]), a: Rc::new(a), b: Rc::new(b) };
+    let gc: Vec<Rc<Cell<u64>>> = (0..3).map(|_| Rc::new(Cell::new(0))).collect();
+    let ic: Vec<Rc<Cell<u64>>> = (0..3).map(|_| Rc::new(Cell::new(0))).collect();
+    let mut out = Vec::new();
+    let (mut gtrace, mut itrace) = (Vec::new(), Vec::new());
+    let r = catch(|| {
+        let mut ph = signal::rate(rate).hz(h_control(&sp, gc[0].clone(), ic[0].clone())).phase();
+        let mut ys = Vec::new();
+        for _ in 0..n {
+            ys.push(c64(ph.next()));
+            gtrace.push(gc[0].get());
+            itrace.push(ic[0].get());
+        }
+        ys
+    });
+    out.push(match r { Ok(v) => fmt(1, &v), Err(c) => fmt(9, &[c as u64]) });
+    out.push(match catch(|| signal::rate(rate).hz(h_control(&sp, gc[1].clone(), ic[1].clone())).saw()) {
+        Ok(s) => take(2, s, n),
+        Err(c) => fmt(9, &[c as u64]),
+    });
+    out.push(match catch(|| signal::rate(rate).hz(h_control(&sp, gc[2].clone(), ic[2].clone())).square()) {
+        Ok(s) => take(3, s, n),
+        Err(c) => fmt(9, &[c as u64]),
+    });
+    out.push(fmt(6, &gtrace));
+    out.push(fmt(8, &itrace));
+    out.push(fmt(7, &gc.iter().map(|c| c.get()).collect::<Vec<_>>()));
+    out.push(fmt(10, &ic.iter().map(|c| c.get()).collect::<Vec<_>>()));
+    out.join(";")
+}
+
 fn summary<S: Signal<Frame = f64>>(tag: u64, mut s: S, n: usize, lo: f64, hi: f64, hi_open: bool) -> String {
     let r = catch(move || {
         let (mut mn, mut mx, mut nan, mut bad) = (f64::INFINITY, f64::NEG_INFINITY, 0u64, 0u64);
@@ -152,6 +284,7 @@ fn main() {
             "O" => osc(&t),
             "N" => noise(&t),
             "R" => range_run(&t),
+            "H" => hz_composite(&t),
             _ => "9 9".to_string(),
         }
     });
